@@ -74,7 +74,7 @@ def pipeline_instance():
         trainer = CACGMMTrainer() if inp['model'] == 'cacgmm' else CWMMTrainer()
         # the recording level is arbitrary (the spatial models see directions only): the observation handed to the model is
         # rescaled by a random overall gain; posteriors come from fit_predict or from fit followed by predict
-        level = 10.0 ** rng.uniform(-4, 4)
+        level = [1e-4, 1e-3, 1.0, 1e3][(inp['seed'] // 2) % 4] * 10.0 ** rng.uniform(-0.5, 0.5)
         if inp['seed'] % 2:
             post = trainer.fit_predict(Yt * level, initialization=init, iterations=10)        # (F, K, T)
         else:
